@@ -198,20 +198,21 @@ def readNumberRes (ctx : Ctx) (st : St) : Res :=
 
 /-! ## Namespaced-map key rewriting and metadata merging -/
 
-/-- key rewriting of `edn_read_map_internal` when a namespace prefix is active -/
+def synthHdr : Hdr := { s := 0, e := 0, hc := 0, synth := true }
+
+/-- key rewriting of `edn_read_map_internal` when a namespace prefix is active; the
+    rewritten key is a freshly allocated value without a source range -/
 def qualifyKey (nsName : Bytes) (k : Val) : Val :=
   match k with
-  | .kw h ns name =>
+  | .kw _ ns name =>
     match ns with
-    | none => .kw (mkHdr (h.s) (h.e)) (some nsName) name
-    | some n => if n == [0x5F] then .kw (mkHdr (h.s) (h.e)) none name else k
+    | none => .kw synthHdr (some nsName) name
+    | some n => if n == [0x5F] then .kw synthHdr none name else k
   | .sym h md ns name =>
     match ns with
-    | none => .sym (mkHdr (h.s) (h.e)) none (some nsName) name
-    | some n => if n == [0x5F] then .sym (mkHdr (h.s) (h.e)) none none name else .sym h md ns name
+    | none => .sym synthHdr none (some nsName) name
+    | some n => if n == [0x5F] then .sym synthHdr none none name else .sym h md ns name
   | k => k
-
-def synthHdr : Hdr := { s := 0, e := 0, hc := 0, synth := true }
 
 /-- the one-entry maps built for keyword, vector, string and symbol annotations -/
 def metaEntries (m : Val) : Option (List Val × List Val) :=
